@@ -167,3 +167,52 @@ pub fn ranges(n: u64, k: usize) -> Vec<(u64, u64)> {
     }
     v
 }
+
+/// Kills a child process if it is still running after `secs` (the code under test hanging is a
+/// finding, not a reason for the check to hang). `finish` says whether the limit was hit.
+pub struct KillGuard {
+    done: std::sync::Arc<std::sync::atomic::AtomicBool>,
+    fired: std::sync::Arc<std::sync::atomic::AtomicBool>,
+}
+
+pub fn child_time_limit() -> u64 {
+    std::env::var("VERIF_CHILD_SECS").ok().and_then(|s| s.parse().ok()).unwrap_or(300)
+}
+
+pub fn kill_after(pid: u32, secs: u64) -> KillGuard {
+    use std::sync::atomic::{AtomicBool, Ordering};
+    let done = std::sync::Arc::new(AtomicBool::new(false));
+    let fired = std::sync::Arc::new(AtomicBool::new(false));
+    let (d, f) = (done.clone(), fired.clone());
+    let _ = std::thread::Builder::new().name("child-time-limit".into()).spawn(move || {
+        let started = std::time::Instant::now();
+        while !d.load(Ordering::SeqCst) {
+            std::thread::sleep(std::time::Duration::from_millis(100));
+            if started.elapsed().as_secs() >= secs && !d.load(Ordering::SeqCst) {
+                f.store(true, Ordering::SeqCst);
+                // SAFETY: plain kill(2) on a pid we spawned and have not reaped yet.
+                unsafe {
+                    libc::kill(pid as i32, libc::SIGKILL);
+                }
+                return;
+            }
+        }
+    });
+    KillGuard { done, fired }
+}
+
+impl KillGuard {
+    pub fn finish(self) -> bool {
+        self.done.store(true, std::sync::atomic::Ordering::SeqCst);
+        self.fired.load(std::sync::atomic::Ordering::SeqCst)
+    }
+}
+
+/// `Command::output` with the child time limit; the bool says whether the child was killed.
+pub fn output_limited(cmd: &mut Command) -> std::io::Result<(std::process::Output, bool)> {
+    cmd.stdout(Stdio::piped()).stderr(Stdio::piped());
+    let child = cmd.spawn()?;
+    let guard = kill_after(child.id(), child_time_limit());
+    let out = child.wait_with_output()?;
+    Ok((out, guard.finish()))
+}
